@@ -57,10 +57,11 @@ func (e *FaultSrv) Note(ctx context.Context, tok int) error {
 func (e *FaultSrv) Blob(ctx context.Context, b string) error { return nil }
 
 type FaultCli struct {
-	Echo      func(ctx context.Context, tok int) (int, error)
+	// the retry-tagged field comes first on purpose: tags must not leak to fields declared after it
 	EchoRetry func(ctx context.Context, tok int) (int, error) `retry:"true"`
-	Note      func(ctx context.Context, tok int) error        `notify:"true"`
-	Blob      func(ctx context.Context, b string) error       `notify:"true"`
+	Echo      func(ctx context.Context, tok int) (int, error)
+	Note      func(ctx context.Context, tok int) error  `notify:"true"`
+	Blob      func(ctx context.Context, b string) error `notify:"true"`
 }
 
 var faultKinds = map[string]vnet.FaultKind{"fin": vnet.FIN, "rst": vnet.RST, "bh": vnet.Blackhole}
@@ -71,6 +72,7 @@ var faultKinds = map[string]vnet.FaultKind{"fin": vnet.FIN, "rst": vnet.RST, "bh
 func init() {
 	Register(&Scenario{
 		Name:     "fault",
+		LazyToo:  true,
 		DescToo:  true,
 		Property: "C03,C04",
 		Cfg:      vsched.Config{Horizon: 20 * time.Second},
